@@ -839,6 +839,9 @@ func (ex *Exec) refOf(v Val) *Term {
 }
 
 func (ex *Exec) ghostSort(name string) (string, *Sort) {
+	if name == "$closed" {
+		return "bool", SBool
+	}
 	t, ok := ex.prog.GhostFields[name]
 	if !ok {
 		unsup("undeclared ghost field %s", name)
@@ -954,7 +957,7 @@ func (ex *Exec) softBool(e *Expr, env *Env) (res *Term) {
 			panic(r)
 		}
 	}()
-	return ex.asBool(ex.eval1(e, env))
+	return ex.asBool(ex.eval(e, env))
 }
 
 
